@@ -287,6 +287,9 @@ func readOptHeader(r io.Reader, d io.Writer, peStart int64, fh *pe.FileHeader) (
 	if int64(len(buf)) < dd4End {
 		return nil, errors.New("PE optional header is too short")
 	}
+	if hvals.fileAlign == 0 {
+		return nil, errors.New("PE optional header has no file alignment")
+	}
 	hvals.certStart = int64(dd.VirtualAddress)
 	hvals.certSize = int64(dd.Size)
 	hvals.secTblStart = peStart + 24 + int64(fh.SizeOfOptionalHeader)
